@@ -18,8 +18,9 @@ def hbody(t, src, dv, p):
     return h
 
 
-def body(root, t, src, deps, prods):
-    """deps: list of paths; prods: dict nid -> path."""
+def body(root, t, src, deps, prods, mem=None):
+    """deps: list of paths (or values handed over in memory / hashed lists); prods: dict nid -> path;
+    mem: id of a product handed over in memory - its value is returned."""
     root = Path(root)
     try:
         faults = json.loads((root / "faults.json").read_text())
@@ -32,7 +33,7 @@ def body(root, t, src, deps, prods):
         if f == "raise_before":
             raise RuntimeError("injected")
         # a dependency is a file (path) or a hashed Python value (the list vt(code)); its "content" is the code
-        dv = [int(d[0]) if isinstance(d, (list, tuple)) else int(Path(d).read_text()) for d in deps]
+        dv = [int(d[0]) if isinstance(d, (list, tuple)) else (d if isinstance(d, int) else int(Path(d).read_text())) for d in deps]
         omit = f["omit"] if isinstance(f, dict) else []
         kill_after = f.get("kill_after") if isinstance(f, dict) else None
         n = 0
@@ -52,6 +53,7 @@ def body(root, t, src, deps, prods):
                 engine_crash.wrote(int(nid))
         if f == "raise_after":
             raise RuntimeError("injected")
+        return hbody(t, src, dv, int(mem)) if mem is not None else None
     finally:
         with open(root / "exec.log", "a") as fh:
             fh.write(f"F {t}\n")
